@@ -43,7 +43,8 @@ Dom_sch(w) == { r \in Runs_sch(w) : r.x < r.par.q /\ r.a < r.par.q /\ r.c < r.pa
 QsV(w) == IF w THEN {5, 7} ELSE {5}
 Dom_schv(w) ==
   { r \in { [sys |-> "schv", par |-> [q |-> q, idrep |-> FALSE], R |-> R, s |-> s, l |-> l, a |-> a, b |-> b, c |-> c] :
-              q \in QsV(w), R \in 1..6, s \in 0..6, l \in 0..6, a \in 1..6, b \in 1..6, c \in 0..6 } :
+              q \in QsV(w), R \in 1..6, s \in 0..6, l \in 0..6, a \in (IF w THEN 1..6 ELSE {1, 2, 4}), b \in (IF w THEN 1..6 ELSE {1, 2, 4}),
+              c \in 0..6 } :
       /\ r.R < r.par.q /\ r.s < r.par.q /\ r.l < r.par.q /\ r.a < r.par.q /\ r.b < r.par.q /\ r.c < r.par.q
       /\ (r.s * r.R + r.l) % r.par.q # 0        \* V is a point
       /\ (r.a * r.R + r.b) % r.par.q # 0 }      \* the prover's alpha is a point (else it panics: no proof)
@@ -60,14 +61,14 @@ Units(N) == {x \in 1..(N - 1) : GCD(x, N) = 1}
 Dom_pai(w) ==
   UNION { { [sys |-> "pai", par |-> [K |-> 2, bound |-> 4], p |-> pq[1], q |-> pq[2], xs |-> xs] :
               xs \in [1..2 -> Units(pq[1] * pq[2])] } :
-          pq \in (IF w THEN {<<5, 7>>, <<7, 11>>, <<11, 13>>} ELSE {<<5, 7>>, <<7, 11>>}) }
+          pq \in (IF w THEN {<<5, 7>>, <<7, 11>>, <<11, 13>>} ELSE {<<5, 7>>}) }
 
 (* Paillier-Blum moduli with gcd(N, phi) = 1: 33 = 3*11, 77 = 7*11, 69 = 3*23, 133 = 7*19 *)
 NonRes(N) == {w \in 1..(N - 1) : Jacobi(w, N) = -1}
 Dom_mod(w) ==
   UNION { { [sys |-> "mod", par |-> [K |-> 1], p |-> pq[1], q |-> pq[2], W |-> W, Y |-> <<y>>] :
               W \in NonRes(pq[1] * pq[2]), y \in 0..(pq[1] * pq[2] - 1) } :
-          pq \in (IF w THEN {<<3, 11>>, <<7, 11>>, <<3, 23>>, <<7, 19>>} ELSE {<<3, 11>>, <<7, 11>>}) }
+          pq \in (IF w THEN {<<3, 11>>, <<7, 11>>, <<3, 23>>, <<7, 19>>} ELSE {<<3, 11>>}) }
   \cup
   { [sys |-> "mod", par |-> [K |-> 2], p |-> 3, q |-> 11, W |-> W, Y |-> <<y1, y2>>] :
       W \in {5, 7}, y1 \in 0..32, y2 \in 0..32 }
@@ -88,7 +89,7 @@ MtaPar == [q |-> 3, N |-> 35, NT |-> 77, h1 |-> 4, h2 |-> 16]
 Dom_alice(w) ==
   { [sys |-> "alice", par |-> MtaPar, m |-> m, r |-> r, e |-> e,
      rn |-> [alpha |-> al, beta |-> be, gamma |-> ga, rho |-> rho]] :
-      m \in 0..2, r \in {1, 2}, e \in 0..2, al \in 0..26, be \in (IF w THEN {1, 3} ELSE {3}),
+      m \in 0..2, r \in {1, 2}, e \in 0..2, al \in (IF w THEN 0..26 ELSE {0, 1, 2, 3, 13, 24, 25, 26}), be \in (IF w THEN {1, 3} ELSE {3}),
       ga \in (IF w THEN {0, 1, 2, 3, 14, 2078} ELSE {0, 1, 3, 2078}),
       rho \in (IF w THEN {0, 1, 7, 230} ELSE {0, 1, 230}) }
 
@@ -96,7 +97,8 @@ BobC1(w) == {Enc(MtaPar, 1, 2), Enc(MtaPar, 0, 1)}
 Dom_bob(w) ==
   { [sys |-> "bob", par |-> MtaPar, c1 |-> c1, x |-> x, y |-> 5, r |-> r, e |-> e,
      rn |-> [alpha |-> al, rho |-> rho, sigma |-> 1, tau |-> 3, rhop |-> rp, beta |-> be, gamma |-> 1000]] :
-      c1 \in (IF w THEN BobC1(w) ELSE {Enc(MtaPar, 1, 2)}), x \in 0..2, r \in {1, 2}, e \in 0..2, al \in 0..26,
+      c1 \in (IF w THEN BobC1(w) ELSE {Enc(MtaPar, 1, 2)}), x \in 0..2, r \in {1, 2}, e \in 0..2,
+      al \in (IF w THEN 0..26 ELSE {0, 1, 2, 3, 13, 24, 25, 26}),
       rho \in (IF w THEN {0, 1, 230} ELSE {0, 230}),
       rp \in (IF w THEN {0, 3, 2078} ELSE {0, 2078}), be \in (IF w THEN {1, 3} ELSE {3}) }
   \cup
